@@ -476,7 +476,10 @@ prop('C10', 'other',
      'including the signed NaN at the pole); tan is NaN exactly when |x| mod phi equals the library pi/2 constant and is '
      'finite otherwise, with every intermediate of the series and of the final division free of overflow and division '
      'by zero (CBMC/kissat with tan_range replaced by its contract). The accuracy clause needs the real tangent and is '
-     'decided by exhaustive native enumeration of all 411,775 raw x in [-pi, pi] against tanl -- stand-in, not proved.',
+     'decided by exhaustive native enumeration of all 411,775 raw x in [-pi, pi] against tanl -- stand-in, not proved. In the '
+     'THOROUGH tier the arithmetic half of the kernel is additionally proved: on its whole call domain (the multiples of 16 in '
+     '[0, pi/4 * 2^20]) tan_<20> differs from the exact degree-15 Maclaurin polynomial of the tangent (128-bit integer '
+     'evaluation) by at most 3 units of 2^-20 (51 slices, CBMC/kissat, ~7 min).',
      technique='INT back end for range reduction/periodicity/oddness; CBMC contracts + kissat for pole/NaN/UB of the kernel; exhaustive native stand-in for accuracy',
      assumptions=['glibc tanl (long double) as the accuracy oracle of the stand-in'])
 TAN = '_ZN9fixedmath3tanENS_7fixed_tE'
@@ -494,6 +497,15 @@ U('C10', 'c10.tan_k', TAN_K, 'pre_tan_k', 'post_tan_k', cxx='fixedmath::detail::
 U('C10', 'c10.div16', DIV16, 'pre_div16', 'post_div16', cxx='fixedmath::detail::div_<16>($1,$2)', **INTQ)
 U('C10', 'c10.tan_factors', 'lem_c10_tan_factors', 'pre_c10_nonneg2', None, lemma=True, cxx='lem_c10_tan_factors($1,$2)', replace=UFP, backends=('sat', 'kissat'), timeout=300)
 U('C10', 'c10.odd', 'lem_c10_odd', 'pre_valid1', None, lemma=True, cxx='lem_c10_odd($1)', replace=UFP, backends=('sat', 'kissat'), timeout=300)
+# deductive accuracy of the tan series kernel against the exact degree-15 Maclaurin polynomial, sliced over its call domain: the multiples
+# of 16 in [0, pi/4 * 2^20] (tan() only ever passes x << 4) (thorough tier)
+TAN_SHIFT = 14
+for _k in range((823552 >> TAN_SHIFT) + 1):
+    _lo, _hi = _k << TAN_SHIFT, min((_k + 1) << TAN_SHIFT, 823553)
+    # the slice is selected by its high bits, which unit propagation turns into constants before the multipliers are encoded
+    U('C10', 'c10.tan_k.poly.slice%03d' % _k, TAN_K, None, 'post_tan_poly', cxx='fixedmath::detail::tan_<20>($1)',
+      requires_extra=['($1 >> %d) == %d && $1 < %d && ($1 & 15) == 0' % (TAN_SHIFT, _k, _hi)], backends=MULBE, timeout=1800, tier='thorough',
+      note='kernel vs exact polynomial, slice [%d, %d)' % (_lo, _hi))
 U('C10', 'c10.tan', TAN, 'pre_valid1', 'post_tan', replace=[K_TAN_RANGE, K_TAN_K, K_DIV16], cxx='fixedmath::tan($1)', **INTQ)
 
 
@@ -513,7 +525,9 @@ prop('C11', 'other',
      'axis and NaN clauses for all |y|,|x| < 2^31 (INT over the contracts of atan and operator/). Accuracy (5e-5, 8e-5) '
      'needs the real arctangent and monotonicity is a forall-forall relation over non-linear kernels: both are decided '
      'by native stand-ins (atan: every raw x in [0, 2^34) in the thorough tier, above which atan is the constant pi/2; '
-     'a structured subset in the quick tier; atan2: structured/random pairs, bounded).',
+     'a structured subset in the quick tier; atan2: structured/random pairs, bounded). In the THOROUGH tier the arithmetic '
+     'half of the kernel is additionally proved: on its whole call domain [0, 7/16) atan<16> differs from the exact '
+     'polynomial z - z^3/3 + ... - z^11/11 (128-bit integer evaluation) by at most 1.25 ulp (7 slices, CBMC/kissat, ~4 min).',
      technique='CBMC contracts + kissat (kernel), INT back end (segments, bound, atan2 clauses), UF lemma (oddness); native stand-ins for accuracy and monotonicity',
      assumptions=['glibc atanl/atan2l (long double) as the accuracy oracle of the stand-ins',
                   'atan2 accuracy on the full pair domain rests on the staged paper argument (quotient within 1 ulp by C03, |atan\'| <= 1, atan accuracy) plus the bounded native sample'])
@@ -529,6 +543,11 @@ U('C11', 'c11.atan_k', ATAN_K, 'pre_atan_k', 'post_atan_k', cxx='fixedmath::deta
 for i in range(4):
     U('C11', 'c11.atan_sum%d' % (i + 1), ATAN_SUM[i], K_ATAN_SUM[i][1], K_ATAN_SUM[i][2], replace=[K_ATAN_K, K_DIV16], cxx=None, **INTQ)
 U('C11', 'c11.atan', ATAN, 'pre_valid1', 'post_atan', replace=[K_ATAN_K] + K_ATAN_SUM, cxx='fixedmath::atan($1)', **INTQ)
+# deductive accuracy of the atan series kernel against the exact polynomial, sliced over its call domain [0, 7/16) (thorough tier)
+for _k, _lo in enumerate(range(0, 28672, 4096)):
+    U('C11', 'c11.atan_k.poly.slice%d' % _k, ATAN_K, None, 'post_atan_poly', cxx='fixedmath::detail::atan<16>($1)',
+      requires_extra=['$1 >= %d && $1 < %d' % (_lo, _lo + 4096)], backends=MULBE, timeout=1800, tier='thorough',
+      note='kernel vs exact polynomial, slice [%d, %d)' % (_lo, _lo + 4096))
 U('C11', 'c11.odd', 'lem_c11_odd', 'pre_valid1', None, lemma=True, cxx='lem_c11_odd($1)',
   replace=[(ATAN_K, 'UF:pre_atan_k', 'post_atan_k')] + [(K_ATAN_SUM[i][0], 'UF:' + K_ATAN_SUM[i][1], K_ATAN_SUM[i][2]) for i in range(4)], backends=('sat', 'kissat'), timeout=300)
 U('C11', 'c11.atan2', ATAN2, 'pre_c11_atan2', 'post_atan2', replace=[K_ATAN, K_DIVF, I2F_L], cxx='fixedmath::atan2($1,$2)', **INTQ)
@@ -549,7 +568,10 @@ prop('C12', 'other',
      'std::sqrt: the assumed one-ulp contract); asin(-x) == -asin(x) and acos(x).v == 102943 - asin(x).v with NaN '
      'exactly for |x| > 1 (CBMC lemmas, asin/kernels under the determinism abstraction). The backward-error and '
      'monotonicity clauses need the real arcsine / a forall-forall relation: exhaustive native enumeration of all '
-     '131,073 raw x in [-1,1] under both algorithms -- stand-in, not proved.',
+     '131,073 raw x in [-1,1] under both algorithms -- stand-in, not proved. In the THOROUGH tier the arithmetic half of '
+     'the kernel is additionally proved: on its whole call domain (multiples of 16 in [0, 0.6 * 2^20]) asin<20> differs from '
+     'the exact polynomial x + x^3/6 + 3x^5/40 + 5x^7/112 + 35x^9/1152 + 63x^11/2816 (128-bit integer evaluation) by at most '
+     '2.5 units of 2^-20 (39 slices, CBMC/kissat, ~1 min).',
      technique='CBMC contracts + kissat (kernel), INT back end (NaN domain, range, UB under both sqrt contracts), UF lemmas (odd, acos identity); exhaustive native stand-in',
      assumptions=['sqrt_std_math is within one ulp of the real root on [0, 0.2] (assumed contract, std::sqrt correctly rounded; cross-checked by the C13 scan)',
                   'glibc asinl as the oracle of the stand-in'])
@@ -564,6 +586,14 @@ for cfg in ('abacus', 'stdsqrt'):
     U('C12', 'c12.asin.' + cfg, ASIN, 'pre_valid1', 'post_asin', replace=[K_ASIN_K, K_SQRT_ASIN], cfg=cfg, cxx='fixedmath::asin($1)', backends=('sat', 'kissat'), timeout=300)
 U('C12', 'c12.sqrt_1ulp.abacus', 'lem_c12_sqrt_contract', 'pre_c12_sqrtc', None, lemma=True, cxx='lem_c12_sqrt_contract($1,$2)', **INTQ)
 U('C12', 'c12.sqrt_bound', 'lem_c12_sqrt_bound', 'pre_c12_sqrtb', None, lemma=True, cxx='lem_c12_sqrt_bound($1,$2)', **INTQ)
+# deductive accuracy of the asin series kernel against the exact polynomial, sliced over its call domain: the multiples of 16 in
+# [0, 0.6 * 2^20] (asin() only ever passes a value << 4) (thorough tier)
+ASIN_SHIFT = 14
+for _k in range((629152 >> ASIN_SHIFT) + 1):
+    _lo, _hi = _k << ASIN_SHIFT, min((_k + 1) << ASIN_SHIFT, 629153)
+    U('C12', 'c12.asin_k.poly.slice%02d' % _k, ASIN_K, None, 'post_asin_poly', cxx='fixedmath::detail::asin<20>($1)',
+      requires_extra=['($1 >> %d) == %d && $1 < %d && ($1 & 15) == 0' % (ASIN_SHIFT, _k, _hi)], backends=MULBE, timeout=1800, tier='thorough',
+      note='kernel vs exact polynomial, slice [%d, %d)' % (_lo, _hi))
 U('C12', 'c12.odd', 'lem_c12_odd', 'pre_c12_in', None, lemma=True, cxx='lem_c12_odd($1)', replace=[(ASIN_K, 'UF:pre_asin_k', 'post_asin_k'), (SQRT, 'UF', 'post_sqrt_asin')], backends=('sat', 'kissat'), timeout=300)
 U('C12', 'c12.acos', 'lem_c12_acos', 'pre_valid1', None, lemma=True, cxx='lem_c12_acos($1)', replace=[(ASIN, 'UF', 'post_asin')], backends=('sat', 'kissat'), timeout=300)
 
